@@ -33,12 +33,17 @@ type dupImportChecker struct {
 
 func (c *dupImportChecker) WalkFile(f *ast.File) {
 	imports := make(map[string][]*ast.ImportSpec)
+	var pkgs []string // in order of first appearance, so that the output order is stable
 	for _, importDcl := range f.Imports {
 		pkg := importDcl.Path.Value
+		if _, ok := imports[pkg]; !ok {
+			pkgs = append(pkgs, pkg)
+		}
 		imports[pkg] = append(imports[pkg], importDcl)
 	}
 
-	for _, importList := range imports {
+	for _, pkg := range pkgs {
+		importList := imports[pkg]
 		if len(importList) == 1 {
 			continue
 		}
